@@ -801,8 +801,19 @@ fn handle_multiline_string(lexer: &mut Lexer, ctx: &mut StaticsContext, file_id:
         } else {
             indent
         };
-        // `indent` is still usize::MAX when no line after the first has any text
-        let slice1 = slice2.min((lexer.index + begin).saturating_add(indent));
+        // `indent` is counted in columns (a tab is 4, as in calculate_indent): strip leading
+        // whitespace up to that many columns, not that many characters.
+        // (`indent` is still usize::MAX when no line after the first has any text)
+        let mut slice1 = lexer.index + begin;
+        let mut columns = 0;
+        while slice1 < slice2 && columns < indent {
+            match lexer.chars[slice1] {
+                ' ' => columns += 1,
+                '\t' => columns += 4,
+                _ => break,
+            }
+            slice1 += 1;
+        }
 
         for c in &lexer.chars[slice1..slice2] {
             string_val.push(*c);
